@@ -57,6 +57,16 @@ type Run struct {
 }
 
 func (r *Run) add(verdict, rule, fn, construct, detail, pos string, path []string) *Obligation {
+	if verdict == "violation" {
+		for _, old := range r.Obls {
+			if old.Verdict == "violation" && old.Rule == rule && old.Func == fn && old.Construct == construct {
+				if pos != "" && !strings.Contains(old.Detail, pos) && len(old.Detail) < 1500 {
+					old.Detail += " | also at " + pos
+				}
+				return old
+			}
+		}
+	}
 	o := &Obligation{Rule: rule, Func: fn, Construct: construct, Verdict: verdict, Detail: detail, Pos: pos, Path: path}
 	r.Obls = append(r.Obls, o)
 	if fn != "" {
